@@ -91,7 +91,10 @@ def _impl_frame(tb):
     last_pkg, last_harness, i = None, -1, 0
     last_pkg_i = -1
     while tb is not None:
-        fn = os.path.abspath(tb.tb_frame.f_code.co_filename)
+        fn = tb.tb_frame.f_code.co_filename
+        if not os.path.isabs(fn):       # compiled extension modules report relative source names: third-party code
+            fn = os.sep + "third_party" + os.sep + fn
+        fn = os.path.abspath(fn)
         if fn.startswith(pkg + os.sep):
             last_pkg = f"{os.path.relpath(fn, os.path.dirname(pkg))}:{tb.tb_frame.f_code.co_name}"
             last_pkg_i = i
